@@ -29,6 +29,12 @@ def run(c):
     if c.replay:
         import json
         eng = (json.load(open(c.replay)).get("engine") or "ref")
+        if eng.startswith("meta-alias"):
+            out = c.harness("sched", ["meta", "-replay", c.replay])
+            if out:
+                out["monitor"] = [m for m in (out.get("monitor") or []) if "meta-alias" in (m.get("tags") or [])]
+                c.monitor("meta-alias", out)
+            return
         sub = eng.split("-")[0]
         out = c.harness("rel", [sub, "-replay", c.replay])
         if out:
@@ -38,6 +44,13 @@ def run(c):
         out = c.harness("rel", [sub, "-n", str(n[sub])], timeout=900)
         if out:
             _eval(c, sub, out)
+    # aliases of meta processes: every way a meta process terminates (Start returns while the handler is idle / inside a
+    # callback, the parent terminates, a callback fails), under the schedules of the Sched meta family; afterwards the alias
+    # must not resolve any more
+    out = c.harness("sched", ["meta", "-n", "150" if quick else "3000"], timeout=900 if quick else 3000)
+    if out:
+        out["monitor"] = [m for m in (out.get("monitor") or []) if "meta-alias" in (m.get("tags") or [])]
+        c.monitor("meta-alias", out)
     if c.broken and not c.violations:
         keep = list(c.broken)
         for sub in ("ref", "hist", "tm", "race"):
@@ -54,5 +67,5 @@ def run(c):
         "the 64-bit counters n.uniqID and n.nextID do not wrap during a node's life (stated hypothesis counter + k < 2^64; uniqID starts at time.Now().UnixNano())",
         "sync.Map.LoadOrStore / LoadAndDelete / CompareAndDelete and atomic.Bool operations are linearizable; racing registrants are modelled by the order in which their LoadOrStore takes effect",
         "process-level operations run inside the owning actor's callback (state Running); only node.RegisterName and node.Kill are called from foreign goroutines",
-        "meta-process aliases are not modelled (no meta process is started by the harness); the agreement / release / no-dangling theorems speak about sequential histories of atomic registry operations",
+        "meta-process aliases are not in the Rel model; their release after every kind of termination of a meta process is monitored on the real node under the schedules of the Sched meta family (send to the alias must fail afterwards); the agreement / release / no-dangling theorems speak about sequential histories of atomic registry operations",
     ]
